@@ -19,6 +19,9 @@ def check(chk, thorough=False):
     chk.run('C15.g', 'R-GUARD', 'every TLS peer is asked for its certificate, whatever is required locally: a contradicting certificate identifier is seen (and terminates) also where nothing is required', lambda ob: c15g(tree, ob), floor=1)
     chk.run('C15.h', 'R-ESCAPE', 'an error raised by the receive handling (a failed TLS policy check among them) is not caught and logged around the receive entry: reading does not go on in the clear', lambda ob: c15h(tree, ob), floor=1)
     chk.run('C15.i', 'R-FLOW', 'the cleartext-after-contact-header test sees the octets that follow: while a message handler runs, the receive buffer is not an emptied attribute with the rest held elsewhere', lambda ob: c15i(tree, ob), floor=1)
+    chk.run('C15.j', 'R-ORDER', 'a policy close is a close: Messenger.close() and ContactHandler.close() reach the connection-level close on every path (no deferral while octets wait), and that ends in socket close()', lambda ob: close_is_unconditional(tree, ob), floor=2)
+    chk.run('C15.k', 'R-FLOW', 'every contact is judged by the configured policy: the agent hands its own configuration object to each handler it binds (accepted and connected alike)', lambda ob: handler_gets_agent_config(tree, ob), floor=2)
+    chk.run('C15.l', 'R-ESCAPE', 'the node ID of a refused peer cannot raise on the way to the contact-failure SESS_TERM: every read of the peer node ID text sits in a handler for text that is not UTF-8 (= C17.a clause)', lambda ob: __import__('sa.props.c17', fromlist=['_peer_text'])._peer_text(tree, ob), floor=1)
     chk.run('C15.d', 'R-ORDER', 'authentication runs before the session is declared established; a failure terminates with the raised reason', lambda ob: c15d(tree, ob), floor=3)
 
 
@@ -562,3 +565,49 @@ def c15i(tree, ob):
                    'the "unsecured data before the TLS handshake" test of the contact-header handler sees nothing, a cleartext SESS_INIT pipelined behind the contact header is accepted', bad[0].ast, sure=True)
     else:
         ob.site(SESS, h, 'while a handler runs the receive buffer holds what follows the message')
+
+
+def close_is_unconditional(tree, ob):
+    """ when the TLS or authentication policy fails the session is closed on the spot; the close must really happen in
+    that call: what the peer sent together with the offending message is still in the receive buffer and is acted on if
+    the connection stays open "until the transmit buffer has drained". """
+    SESS = 'tcpcl/session.py'
+    for (qual, pats) in (('Messenger.close', ('super(Messenger, self).close()', 'Connection.close(self)', 'super().close()')),
+                         ('ContactHandler.close', ('super(ContactHandler, self).close()', 'Messenger.close(self)', 'super().close()'))):
+        if not tree.has_func(SESS, qual):
+            continue
+        fv = FuncView(tree, SESS, qual)
+        ups = [c for c in calls_in(fv.func) if any(pm(p_, c) is not None for p_ in pats)]
+        if not ups:
+            ob.violate(SESS, qual, 'no call of the base close()', 'close() does not hand on to the connection-level close', fv.func)
+            continue
+        ok, wit = fv.cfg.must_pass(fv.cfg.entry, fv.cfg.exit, {fv.node(c) for c in ups}, include_exc=False)
+        if ok:
+            ob.site(SESS, ups[0], qual + ': every way through reaches the connection-level close')
+        else:
+            ob.violate(SESS, qual, 'return without ' + src(ups[0]), 'close() has a way out that does not close (deferred until something else happens): after a failed TLS / authentication policy '
+                       'check the connection stays open, the messages the peer sent along are still handled (a SESS_INIT is answered, a bundle taken) and an endpoint whose peer stopped reading never closes', ups[0], path_text(wit) if wit else None)
+    fv = FuncView(tree, SESS, 'Connection.close')
+    closes = [c for c in calls_in(fv.func) if pm('sock.close()', c) is not None or (isinstance(c.func, ast.Attribute) and c.func.attr == 'close' and 'sock' in src(c.func.value))]
+    ob.require(closes, 'socket close() in Connection.close')
+    ob.site(SESS, closes[0], 'Connection.close closes the sockets')
+
+
+def handler_gets_agent_config(tree, ob):
+    AG = 'tcpcl/agent.py'
+    n = 0
+    for (r, qual, func) in tree.all_functions([AG]):
+        fv = None
+        for c in calls_in(func):
+            if not (isinstance(c.func, ast.Attribute) and c.func.attr == '_bind_handler'):
+                continue
+            n += 1
+            fv = fv or FuncView(tree, AG, qual)
+            cfg = kwarg(c, 'config')
+            val = fv.value_at(cfg, c, depth=3) if cfg is not None else None
+            if val is not None and src(val) == 'self._config':
+                ob.site(AG, c, qual + ': the handler is bound with the configuration of the agent')
+            else:
+                ob.violate(AG, qual, 'config=' + (src(val)[:60] if val is not None else '<none>'), 'the handler of this contact does not get the configuration of the agent but something derived from it: a '
+                           'requirement of the configured policy (require_tls, require_host_authn, require_node_authn) can be switched off for these contacts', c, sure=val is not None and isinstance(val, ast.Call))
+    ob.require(n >= 2, '_bind_handler calls: {}'.format(n))
